@@ -63,9 +63,13 @@ func (g *FnGen) evalBool(e Expr, ctx *EvalCtx) string {
 
 func ctypeByName(d *Decls, P *Program, n string) (string, bool, types.Type) {
 	switch n {
-	case "int", "int64":
+	case "int":
+		return sortBV64, true, types.Typ[types.Int]
+	case "int64":
 		return sortBV64, true, types.Typ[types.Int64]
-	case "uint", "uint64":
+	case "uint":
+		return sortBV64, false, types.Typ[types.Uint]
+	case "uint64":
 		return sortBV64, false, types.Typ[types.Uint64]
 	case "int32":
 		return bvSort(32), true, types.Typ[types.Int32]
